@@ -376,6 +376,7 @@ func c10ChildMain(inPath, outPath string) {
 	if err != nil {
 		fatal("c10 child: server: %v", err)
 	}
+	os.WriteFile(outPath+".started", []byte("ok"), 0o644) // from here on the end of this process is the server's doing
 	// scenarios run concurrently (they share the adapters' worker pools, which only lengthens queueing); the
 	// scenarios that use tars_ping are serialised among themselves so that the servant's ping counter is attributable
 	var wg sync.WaitGroup
